@@ -104,6 +104,16 @@ def run_case(c):
             return ["fail"]
         except IndexError:
             return ["fail"]
+    if c["kind"] == "integrate_direct":
+        # the REAL refinePointIntegrate (solve_ivp): a contract of the model -- it must move the point TOWARDS the surface from either side
+        ct = contour([Point2D(0.0, 0.0), Point2D(1.0, 0.0)], psival)
+        p = Point2D(F(fh(c["p"][0])), F(fh(c["p"][1])))
+        t = Point2D(F(fh(c["t"][0])), F(fh(c["t"][1])))
+        try:
+            q = ct.refinePointIntegrate(p, t, psi=psi, width=width, atol=atol)
+            return ["done", float(q.R).hex(), float(q.Z).hex(), float(psi(p.R, p.Z)).hex(), float(psi(q.R, q.Z)).hex()]
+        except SolutionError:
+            return ["fail"]
     raise ValueError(c["kind"])
 
 
